@@ -626,6 +626,24 @@ def check_upload(env, ref, project, drv, program, hits, returned=None):
         et = [t["name"][5:] for t in project["tags"] if t.get("kind") == "task"]
         if sorted(tasks) != sorted(et):
             hits.hit("C05", "upload.info", f"tasks {sorted(tasks)} expected {sorted(et)}", what="tasks")
+    # the definitions this upload fetched are also what `data_types` holds under their names now: every structure
+    # reachable from the uploaded tags was fetched anew (the upload cache lives for one upload), so after a changed
+    # program `data_types` may keep old entries only for types this upload did not touch
+    dts = getattr(drv, "data_types", None)
+    if isinstance(dts, dict):
+        reach, todo = set(), [g.get("data_type") for g in got.values() if isinstance(g.get("data_type"), dict)]
+        while todo:
+            d = todo.pop()
+            nm = d.get("name")
+            if nm in reach or not isinstance(nm, str):
+                continue
+            reach.add(nm)
+            for m in (d.get("internal_tags") or {}).values():
+                if isinstance(m, dict) and isinstance(m.get("data_type"), dict):
+                    todo.append(m["data_type"])
+        for nm in sorted(reach):
+            if nm in dts and nm in ref.types:
+                compare_type_def(ref, dts[nm], nm, hits, "data_types after this upload")
     try:
         js = json.dumps(drv.tags_json, sort_keys=True)
     except Exception as e:  # noqa
@@ -1169,7 +1187,22 @@ def gen(seed, tier, prop="C01"):
             sc["faults"] = [{"id": "f0", "kind": kind,
                              "at": {"op": "fv", "dir": d, "nth": rf.choice((0, 0, 1, 1, 2, 3, 5, 8)),
                                     "byte": 0 if rf.random() < 0.6 else rf.choice((1, 4, 23, 24, 30, 44))}}]
-            ops[i:i] = [victim, {"id": "fvc", "kind": "close"}, {"id": "fvo", "kind": "open"}]
+            if rf.random() < 0.3:
+                # ... and while the driver is disconnected the controller gets another program: nothing the cut call
+                # left behind (a half-filled upload cache, definitions, instance ids) may survive into the new upload
+                del ops[i:]
+                ops += [victim, {"id": "fvc", "kind": "close"}, {"id": "fvm", "kind": "mutate_project", "ids": True},
+                        {"id": "fvo", "kind": "open"}]
+                p2 = copy.deepcopy(project)
+                mutate_project(p2, True)
+                ref2 = Ref(p2)
+                for j in range(rf.randint(1, 3)):
+                    rw = "write" if (prop == "C02" and rf.random() < 0.8) or (prop not in ("C01", "C02") and rf.random() < 0.5) else "read"
+                    op = gen_rw_op(rf, ref2, f"fn{j}", rw, prop, micro, with_prog, tier)
+                    if op:
+                        ops.append(op)
+            else:
+                ops[i:i] = [victim, {"id": "fvc", "kind": "close"}, {"id": "fvo", "kind": "open"}]
     return sc
 
 
